@@ -5,13 +5,13 @@ sys.path.insert(0, "/verif")
 props = [os.path.basename(p)[:-3] for p in sorted(glob.glob("/verif/sa/rules/C*.py"))]
 pats = sys.argv[1:] or ["/tmp/mut/*/mutant_*.diff", "/verif/seeded/*/patch.diff"]
 diffs = sorted(d for p in pats for d in glob.glob(p))
-for d in diffs:
+def one(d):
     tmp = tempfile.mkdtemp(prefix="mut-")
     shutil.copytree("/repo/repid", tmp + "/repid", ignore=shutil.ignore_patterns("__pycache__"))
     r = subprocess.run(["patch", "-p1", "-s", "-f", "-d", tmp, "-i", d], capture_output=True, text=True)
     if r.returncode != 0:
-        print(f"{d}: PATCH FAILED {r.stdout[:200]}")
-        shutil.rmtree(tmp); continue
+        shutil.rmtree(tmp)
+        return f"{d}: PATCH FAILED {r.stdout[:200]}"
     hits = []
     for p in props:
         r = subprocess.run(["/venv/bin/python", "-m", "sa.check", p, "--repo", tmp, "--no-evidence"], capture_output=True, text=True, cwd="/verif")
@@ -21,5 +21,12 @@ for d in diffs:
         elif r.returncode == 2:
             hits.append(f"{p}:ERROR({[l for l in r.stdout.splitlines() if 'ANALYSIS-ERROR' in l][:1]})")
     own = d.split("/")[-2]
-    print(f"{d.replace('/tmp/mut/','')}: {'CAUGHT ' + ' '.join(hits) if hits else 'missed'}")
     shutil.rmtree(tmp)
+    return f"{d.replace('/tmp/mut/','')}: {'CAUGHT ' + ' '.join(hits) if hits else 'missed'}"
+
+
+from concurrent.futures import ThreadPoolExecutor
+
+with ThreadPoolExecutor(int(os.environ.get("JOBS", "14"))) as ex:
+    for line in ex.map(one, diffs):
+        print(line, flush=True)
